@@ -184,6 +184,31 @@ def main(tier, seed, replay=None):
                 m = list(zip(run.rng.sample(range(no), r), run.rng.sample(range(ns), r)))
                 # make some fragment terms coincide (forwards / reversed / permuted) with existing ones through the map
                 cases.append((base, [("extend", frag, m)], "random-pair"))
+            # a structure and a fragment with dozens to hundreds of atoms and dozens of terms (size-dependent code paths)
+            for rep in range(2 if tier == "quick" else 12):
+                ns, no = run.rng.randint(120, 260), run.rng.randint(40, 90)
+                base = tagged(run.rng, ns, "s", rep % 2 == 0, cell=CELL, rich=True, max_terms=40)
+                frag = tagged(run.rng, no, "f", rep % 2 == 0, rich=True, max_terms=25)
+                r = run.rng.randint(0, 30)
+                m = list(zip(run.rng.sample(range(no), r), run.rng.sample(range(ns), r)))
+                cases.append((base, [("extend", frag, m)], "random-pair-large"))
+            # fragments of 9-20 atoms of which all but two to four are declared identical to atoms of the structure
+            for rep in range(4 if tier == "quick" else 30):
+                no = run.rng.randint(9, 20)
+                ns = no + run.rng.randint(2, 6)
+                base = tagged(run.rng, ns, "s", rep % 2 == 0, cell=CELL, rich=True, max_terms=4)
+                frag = tagged(run.rng, no, "f", rep % 2 == 0, rich=True, max_terms=4)
+                free = sorted(run.rng.sample(range(no), run.rng.randint(2, 4)))
+                keys = [i for i in range(no) if i not in free]
+                m = list(zip(keys, run.rng.sample(range(ns), len(keys))))
+                cases.append((base, [("extend", frag, m)], "mostly-mapped"))
+            # the structure has extra per-atom columns with values, the fragment has none at all
+            for rep in range(3 if tier == "quick" else 20):
+                base = tagged(run.rng, 5, "s", rep % 2 == 0, cell=CELL, rich=True, max_terms=2)
+                frag = tagged(run.rng, 3, "f", rep % 2 == 0, rich=True, max_terms=2)
+                frag["xl"], frag["xf"] = [], [[] for _ in frag["pos"]]
+                for mm in ([(0, 1)], [(0, 2), (2, 4)], []):
+                    cases.append((base, [("extend", frag, mm)], "fragment-without-atom-columns"))
             # targeted: the fragment carries impropers and the structure has other numbers of dihedral types than improper types
             for coeffs in (True, False):
                 for rep in range(3):
